@@ -167,7 +167,7 @@ def _rx(toks, q_literal=False, star_slash_optional=False):
         elif kind == "any":
             out.append(re.escape("?") if q_literal else ".")
         else:
-            if star_slash_optional and i + 1 < len(toks) and toks[i + 1] == (G.LIT, "/"):
+            if star_slash_optional and i + 1 < len(toks) and toks[i + 1] == (G.LIT, "/") and (i == 0 or toks[i - 1] == (G.LIT, "/")):
                 out.append("(?:.*/)?")
                 i += 1
             else:
